@@ -27,8 +27,10 @@ def hFilter (j : Json) : Except String Json := do
   let np := filterWalk Fix.f9 { cfg with prune := false } listing
   let r := reference { cfg with map := [] } listing
   let opens := listing.filter (fun s => s.isRegular) |>.map fun s => Json.arr #[jhex s.path, toJson (canOpen cfg s.path)]
+  let raw := (getHexArr j "include").toOption.getD [] ++ (getHexArr j "exclude").toOption.getD []
   return jobj [("m", Json.arr (m.map statJ).toArray), ("noprune", Json.arr (np.map (fun s => jhex s.path)).toArray),
-               ("ref", Json.arr (r.map (fun s => jhex s.path)).toArray), ("open", Json.arr opens.toArray)]
+               ("ref", Json.arr (r.map (fun s => jhex s.path)).toArray), ("open", Json.arr opens.toArray),
+               ("illegal", toJson (raw.any illegalBang))]
 
 def hPatMatch (j : Json) : Except String Json := do
   let pats ← getHexArr j "patterns"
@@ -38,6 +40,7 @@ def hPatMatch (j : Json) : Except String Json := do
   -- chained parent results along the path's ancestors (as a walk would compute them)
   let pref := parentPrefixes path ++ [path]
   let (m, _) := pref.foldl (fun (acc : Bool × List Bool) q => matchesUPR ps q acc.2) (false, [])
-  return jobj [("single", toJson single), ("mopm", toJson (matchesOrParent ps path)), ("upr", toJson m)]
+  return jobj [("single", toJson single), ("mopm", toJson (matchesOrParent ps path)), ("upr", toJson m),
+               ("illegal", toJson (pats.any illegalBang))]
 
 end Drv
